@@ -132,6 +132,8 @@ def gen_edits(rng, b, exhaustive):
                         d[:c] + ins + d[c:]))
             if not exhaustive:
                 break
+        # not one of the seven patterns (HTAB, not SP): executed and recorded only
+        out.append((dict(kind="ht-colon", field=i), d[:c] + b"\t" + d[c:]))
     # 3..7 inserted fields
     low = [f.name.lower() for f in b.fields]
     n = len(b.fields)
@@ -324,6 +326,9 @@ def eval_req(ctx, obs):
     ctx.count("sec_chk_calls")
     if edit is not None:
         kind = edit["kind"]
+        if kind == "ht-colon":
+            ctx.observe("http_req_sec_chk:HTAB-directly-before-colon:%s" % ("accepted" if sec == 0 else "rejected"))
+            return
         ctx.cls("sec", p["form"], p["method_class"], kind,
                 edit.get("posclass") or edit.get("case") or edit.get("special"),
                 ("at-first" if edit.get("at") == 0 else "at-last" if edit.get("at") == edit.get("of") else "at-mid")
